@@ -6,6 +6,7 @@ import (
 	"fmt"
 	"math/rand"
 	"net/http"
+	"os"
 	"sort"
 	"strings"
 	"sync"
@@ -356,6 +357,9 @@ func (e *errEnv) round(c eclass, k int) (delivered int, ok bool) {
 		if cl.cancel != nil {
 			cl.cancel()
 		}
+		if os.Getenv("C08_DEBUG") != "" {
+			fmt.Fprintf(os.Stderr, "DEBUG %s %s %s -> %s %s\n", e.kind, c.class(), c.V.Name, outcome, errStr(r.Err))
+		}
 		rep.Distinct(fmt.Sprintf("%s|%s|%s|%s", e.kind, c.class(), c.V.Name, outcome))
 		sampleOnce(rep, map[string]interface{}{"kind": e.kind, "operation": c.Op, "answer": c.V, "source": c.Source, "outcome": outcome, "error": errStr(r.Err)})
 	}
@@ -405,7 +409,18 @@ func (e *errEnv) round(c eclass, k int) (delivered int, ok bool) {
 			rep.Violation(e.sig(c, "pending-entries-left"), fmt.Sprintf("%s: pending-request table holds %d entries at quiescence and %d after Close", e.label(c), pending, after), map[string]interface{}{"answer": c.V.Name})
 		}
 	}
-	mkctx := func() (context.Context, context.CancelFunc) { return context.WithTimeout(context.Background(), dl) }
+	// The callers of the first half never cancel their context (context.Background(), or one long-lived context
+	// for many calls, is ordinary use): whatever a failed call left behind is then not swept up by a cancel.
+	// The second half runs under a deadline and cancels once the call has returned. An answer whose body
+	// never ends can only be left by a deadline: those operations all have one.
+	mkctx := func(i, k int) (context.Context, context.CancelFunc) {
+		if !conc && i < (k+1)/2 {
+			rep.SetAdd("http_error_caller_contexts", "never-cancelled")
+			return context.Background(), func() {}
+		}
+		rep.SetAdd("http_error_caller_contexts", "deadline,cancelled-after-return")
+		return context.WithTimeout(context.Background(), dl)
+	}
 
 	var pls []*Plan
 	switch c.Op {
@@ -418,7 +433,7 @@ func (e *errEnv) round(c eclass, k int) (delivered int, ok bool) {
 		lp := e.plans(c, "POST", `"method":"tools/list"`, prefix)
 		e.px.SetPlans(append(append([]*Plan{}, pls...), lp[len(lp)-1])...)
 		run(k, "value", func(i int) *call {
-			ctx, cancel := mkctx()
+			ctx, cancel := mkctx(i, k)
 			if i == 1 { // one tools/list among the tools/call requests
 				return startOp("tools/list", cancel, func() (string, error) {
 					res, err := cli.ListTools(ctx, &mcp.ListToolsRequest{})
@@ -460,7 +475,7 @@ func (e *errEnv) round(c eclass, k int) (delivered int, ok bool) {
 					clients = append(clients, cli)
 				}
 			}
-			ctx, cancel := mkctx()
+			ctx, cancel := mkctx(i, k)
 			return startOp("initialize", cancel, func() (string, error) {
 				ir, err := cli.Initialize(ctx, &mcp.InitializeRequest{})
 				if err != nil {
@@ -485,7 +500,7 @@ func (e *errEnv) round(c eclass, k int) (delivered int, ok bool) {
 		pls = e.plans(c, "POST", `"method":"notifications/`, prefix)
 		e.px.SetPlans(pls...)
 		run(k, "none", func(i int) *call {
-			ctx, cancel := mkctx()
+			ctx, cancel := mkctx(i, k)
 			return startOp("notification", cancel, func() (string, error) {
 				if i%2 == 0 {
 					return "ok", cli.HTTP.SendInitialized(ctx)
@@ -504,7 +519,7 @@ func (e *errEnv) round(c eclass, k int) (delivered int, ok bool) {
 		pls = e.plans(c, "DELETE", "", prefix)
 		e.px.SetPlans(pls...)
 		run(k, "none", func(i int) *call {
-			ctx, cancel := mkctx()
+			ctx, cancel := mkctx(i, k)
 			return startOp("terminate-session", cancel, func() (string, error) { return "ok", cli.HTTP.TerminateSession(ctx) })
 		})
 		delivered = finalFired(pls)
@@ -518,8 +533,8 @@ func (e *errEnv) round(c eclass, k int) (delivered int, ok bool) {
 		var clients []*kit.LibClient
 		want := "value"
 		run(k, want, func(i int) *call {
-			ctx, cancel := mkctx()
-			if !legacy {
+			ctx, cancel := mkctx(i, k)
+			if !legacy && conc {
 				// the stream is opened in the background after a successful handshake
 				ctx, cancel = context.WithTimeout(context.Background(), 10*time.Second)
 			}
@@ -756,6 +771,12 @@ func (e *errEnv) realBatch() {
 	direct := &http.Client{Transport: &http.Transport{DisableKeepAlives: true}}
 	legacy := e.kind == kit.LSSE
 	mkctx := func() (context.Context, context.CancelFunc) { return context.WithTimeout(context.Background(), callDeadline) }
+	mkctxi := func(i, k int) (context.Context, context.CancelFunc) {
+		if i < (k+1)/2 {
+			return context.Background(), func() {} // never cancelled
+		}
+		return mkctx()
+	}
 	type scenario struct {
 		name   string
 		status int
@@ -822,7 +843,7 @@ func (e *errEnv) realBatch() {
 				var calls []*call
 				prefix := nextNonce("r")
 				for i := 0; i < k; i++ {
-					ctx, cancel := mkctx()
+					ctx, cancel := mkctxi(i, k)
 					var cl *call
 					switch op {
 					case "init":
